@@ -78,6 +78,10 @@ type wireSpec struct {
 	Aka     struct {
 		MaxValueOctets map[string]int64 `json:"max_value_octets"`
 		HeaderOctets   int64            `json:"header_octets"`
+		LengthInBits   []int64          `json:"length_in_bits"`
+		LengthInOctets []int64          `json:"length_in_octets"`
+		ReservedZero   []int64          `json:"reserved_zero"`
+		ValueIn23      []int64          `json:"value_in_octets_2_3"`
 	} `json:"eap_aka_prime"`
 }
 
